@@ -121,7 +121,7 @@ def minimise_c16(ctx, spec, res, viol, max_runs=300, max_s=90.0):
         per_loc = {}
         hot = getattr(ctx, 'hot', set())
         for sw in cur_res.get('switches', []):
-            if len(sw) >= 5 and sw[3] not in (None, 'lock') and (sw[1], sw[4]) not in seen:
+            if len(sw) >= 5 and sw[3] not in (None, 'lock', 'sleep') and (sw[1], sw[4]) not in seen:
                 seen.add((sw[1], sw[4]))
                 if sw[3] in hot:
                     lk = (sw[1], sw[3], sw[5] if len(sw) > 5 else None)      # thread, line, position within the line
@@ -156,7 +156,7 @@ def minimise_c16(ctx, spec, res, viol, max_runs=300, max_s=90.0):
 
     # --- phase S2: two cuts (A runs to a, B runs to b, A completes, B completes) ----
     if len(cur['plan']['segments']) > 4 and budget.ok():
-        sws = [sw for sw in cur_res.get('switches', []) if len(sw) >= 5 and sw[3] not in (None, 'lock')]
+        sws = [sw for sw in cur_res.get('switches', []) if len(sw) >= 5 and sw[3] not in (None, 'lock', 'sleep')]
         hot = getattr(ctx, 'hot', set())
         pairs = []
         tpos = {}
